@@ -586,19 +586,22 @@ func c34RunCase(r *vkit.Run, cs *c34Case) (res c34Result) {
 			if idle == 0 {
 				continue
 			}
-			if tc.quiesce() {
+			if tc.quiesceBlocked() {
 				snap, alive := tc.vc.OnServe()
 				c.mu.Lock()
 				view := c.conn
 				anyReset := len(c.rstSent) > 0
+				anySrvReset := len(c.srvRST) > 0
 				c.mu.Unlock()
 				if alive && snap.StreamQueueFrames > 0 && int64(snap.ConnFlow) < view {
 					why := "other"
 					if anyReset {
 						why = "after-client-reset"
+					} else if anySrvReset {
+						why = "after-server-reset"
 					}
 					r.Violation("conn-send-window-leak:"+why,
-						fmt.Sprintf("quiescent server holds %d queued DATA frames but its connection send window is %d while the client has granted %d (its view, nothing in flight): %d octets were taken from the connection window without being sent; the remaining responses can never complete", snap.StreamQueueFrames, snap.ConnFlow, view, view-int64(snap.ConnFlow)), cs)
+						fmt.Sprintf("quiescent server holds %d queued DATA frames but its connection send window is %d while the client has granted %d (its view, nothing in flight): %d octets were taken from the connection window without being sent (the window shrinks for the rest of the connection; at 0 the remaining responses can never complete)", snap.StreamQueueFrames, snap.ConnFlow, view, view-int64(snap.ConnFlow)), cs)
 					res.why = "stalled: connection send window leaked"
 					break
 				}
